@@ -324,12 +324,81 @@ pub fn lossy_strategy() -> impl Strategy<Value = LossySpec> {
         15 => f64_atom().prop_map(|f| LossySpec { v: ValueSpec::Float(f), target: "bool".into() }),
         25 => i64_atom().prop_map(|i| LossySpec { v: ValueSpec::Int(i), target: "bool".into() }),
         20 => (0i64..2_000_000_000).prop_map(|s| LossySpec { v: ValueSpec::DateTime(s), target: "date".into() }),
+        // a requested type of another variant that cannot hold the converted value
+        12 => (-50i64..50, 0u8..4).prop_map(|(i, k)| LossySpec { v: ValueSpec::Int(i), target: format!("narrow:{k}") }),
+        6 => (any::<bool>(), 0u8..4).prop_map(|(b, k)| LossySpec { v: ValueSpec::Bool(b), target: format!("narrow:{k}") }),
+        // sub-second date-times to text: two values inside one second must stay distinct
+        10 => (0i64..2_000_000_000, 1u32..1_000_000, 1u32..1_000_000).prop_map(|(s, a, b)| LossySpec { v: ValueSpec::DateTime(s), target: format!("subsecond:{a}:{b}") }),
     ]
+}
+
+/// a requested type (other variant) that excludes the natural image of the value
+fn narrow_target(v: &ValueSpec, k: u8) -> Option<(DataType, bool)> {
+    match v {
+        ValueSpec::Int(i) => Some(match k % 4 {
+            0 => (DataType::float_interval(*i as f64 + 1.0, *i as f64 + 6.0), false),
+            1 => (DataType::float_values([*i as f64 - 1.5, *i as f64 + 2.0]), false),
+            2 => (DataType::text_values([(*i + 1).to_string(), format!("x{i}")]), false),
+            // a requested type that does hold the image: must convert
+            _ => (DataType::float_interval(*i as f64 - 1.0, *i as f64 + 1.0), true),
+        }),
+        ValueSpec::Bool(b) => Some(match k % 4 {
+            0 => (DataType::integer_value(if *b { 0 } else { 1 }), false),
+            1 => (DataType::float_interval(2.0, 3.0), false),
+            2 => (DataType::text_values(["maybe".to_string()]), false),
+            _ => (DataType::integer_interval(0, 1), true),
+        }),
+        _ => None,
+    }
 }
 
 pub fn check_lossy(spec: &LossySpec, st: &mut Stats) -> Vec<Fail> {
     let mut fails = vec![];
     let v = spec.v.to_value();
+    if let Some(k) = spec.target.strip_prefix("narrow:") {
+        let Some((target, holds)) = narrow_target(&spec.v, k.parse().unwrap_or(0)) else { return fails };
+        st.eval();
+        st.class(if holds { "requested_type_holds_the_image" } else { "requested_type_excludes_the_image" });
+        match safe(|| v.as_data_type(&target)) {
+            Ok(Ok(w)) => {
+                if lax(&target, &w) == Tri::No {
+                    fails.push(Fail::new(
+                        format!("C12|image_outside_requested_type|{}|{}", crate::member::value_tag(&v), type_tag(&target)),
+                        format!("v={v} converted into {target} gives {w}, which the requested type does not contain (the conversion must be refused)"),
+                    ));
+                }
+            }
+            Ok(Err(e)) => {
+                if holds {
+                    fails.push(Fail::new(format!("C12|value_refused|requested_type_holds_the_image|{}", crate::member::value_tag(&v)), format!("v={v} into {target}: {e}")));
+                }
+            }
+            Err(_) => st.class("narrow_conversion_panicked"),
+        }
+        if !holds {
+            st.nontrivial(hash_json(spec));
+        }
+        return fails;
+    }
+    if let Some(ab) = spec.target.strip_prefix("subsecond:") {
+        let mut it = ab.split(':').filter_map(|x| x.parse::<u32>().ok());
+        let (Some(a), Some(b), ValueSpec::DateTime(secs)) = (it.next(), it.next(), &spec.v) else { return fails };
+        if a == b {
+            return fails;
+        }
+        let mk = |us: u32| chrono::DateTime::from_timestamp(*secs, us * 1000).map(|d| Value::date_time(d.naive_utc()));
+        let (Some(v1), Some(v2)) = (mk(a), mk(b)) else { return fails };
+        st.eval();
+        st.class("subsecond_pair");
+        let t = DataType::text();
+        if let (Ok(Ok(w1)), Ok(Ok(w2))) = (safe(|| v1.as_data_type(&t)), safe(|| v2.as_data_type(&t))) {
+            st.nontrivial(hash_json(spec));
+            if w1 == w2 {
+                fails.push(Fail::new("C12|not_injective|datetime/text|subsecond", format!("distinct date-times {v1} and {v2} both convert to {w1}")));
+            }
+        }
+        return fails;
+    }
     let (target, lossy) = match (&spec.v, spec.target.as_str()) {
         (ValueSpec::Float(f), "int") => (DataType::integer(), f.fract() != 0.0 || !(*f >= -9223372036854775808.0 && *f < 9223372036854775808.0)),
         (ValueSpec::Float(f), "bool") => (DataType::boolean(), *f != 0.0 && *f != 1.0),
